@@ -4,9 +4,10 @@
    What is code of harper-wasm / harper-core glue is modelled as written:
      Linter::new, synchronize_lint_dict, lint (config overlay -> LintGroup::lint -> remove_overlaps ->
      remove_ignored -> problem text), ignore_lint, export/import/clear_ignored_lints, import_words
-     (with its "only synchronise when the word count grew" test), export_words,
-     set_lint_config_from_json / get_lint_config_as_json (LintGroupConfig::merge_from / clear /
-     fill_with_curated), apply_suggestion (one statistics record, then Suggestion::apply).
+     (with its "synchronise when the user dictionary changed" test: `self.user_dictionary != before`),
+     export_words, set_lint_config_from_json (clear, then merge) / get_lint_config_as_json
+     (LintGroupConfig::merge_from / clear / fill_with_curated), apply_suggestion (one statistics
+     record, then Suggestion::apply).
    What is not (the rules, the parsers, the hash of a lint's context, WordId) enters as Section
    variables:  raw_lints, ctx, word_id, curated.  *)
 Require Import Base Overlap Suggestion LintJson.
@@ -36,6 +37,22 @@ Definition config := list (N * option bool).
 (* WordMap { inner: HashMap<WordId, WordMapEntry> }: WordId -> canonical spelling
    (import_words always stores WordMetadata::default(), so the metadata is not carried) *)
 Definition dict := list (N * text).
+
+(* MutableDictionary: PartialEq (derived: WordMap -> HashMap<WordId, WordMapEntry> equality = same keys with
+   equal entries; the metadata is always WordMetadata::default() here).  On the sorted association
+   lists of the model this is list equality. *)
+Fixpoint text_eqb (a b : text) : bool :=
+  match a, b with
+  | [], [] => true
+  | x :: a', y :: b' => (x =? y)%N && text_eqb a' b'
+  | _, _ => false
+  end.
+Fixpoint dict_eqb (a b : dict) : bool :=
+  match a, b with
+  | [], [] => true
+  | (k, w) :: a', (k', w') :: b' => (k =? k')%N && text_eqb w w' && dict_eqb a' b'
+  | _, _ => false
+  end.
 
 (* merge_from: `for (key, val) in other.inner.iter() { if val.is_none() { continue } self.insert(key, *val) }` *)
 Definition cfg_merge_from (self other : config) : config :=
@@ -137,11 +154,19 @@ Section Wasm.
   Definition dict_extend (d : dict) (ws : list text) : dict :=
     fold_left (fun acc w => ains (word_id w) w acc) ws d.
 
-  (* import_words *)
+  (* import_words: `let before = self.user_dictionary.clone(); extend_words(..);
+     if self.user_dictionary != before { self.synchronize_lint_dict() }` *)
   Definition import_words (st : state) (ws : list text) : state :=
+    let before := s_user st in
+    let st' := mkst (s_cfg st) (dict_extend (s_user st) ws) (s_lint_dict st) (s_ignored st) (s_stats st) (s_dialect st) in
+    (* Only synchronize if the dictionary changed: a new word, or a new spelling of a known one *)
+    if dict_eqb (s_user st') before then st' else synchronize st'.
+
+  (* HISTORY (before fix ba0a239, finding C16-F15): synchronised only when the word count grew.  Kept for
+     the regression witness C16_words_roundtrip_old_refuted; not part of `step`. *)
+  Definition import_words_old (st : state) (ws : list text) : state :=
     let init_len := length (s_user st) in
     let st' := mkst (s_cfg st) (dict_extend (s_user st) ws) (s_lint_dict st) (s_ignored st) (s_stats st) (s_dialect st) in
-    (* Only synchronize if we added words that were not there before. *)
     if init_len <? length (s_user st') then synchronize st' else st'.
 
   Definition export_words (st : state) : list text := map snd (s_user st).
@@ -189,7 +214,10 @@ Section Wasm.
     | CClearIgnored => (set_ignored st [], OUnit)
     | CImportWords ws => (import_words st ws, OUnit)
     | CExportWords => (st, OWords (export_words st))
-    | CSetConfig (Some c) => (set_cfg st (cfg_merge_from (s_cfg st) c), OUnit)
+    (* set_lint_config_from_json: `let mut new_config = from_str(&json)?; self.lint_group.config.clear();
+       self.lint_group.config.merge_from(&mut new_config)` — rules the new configuration leaves unset
+       go back to unset (keys stay) *)
+    | CSetConfig (Some c) => (set_cfg st (cfg_merge_from (cfg_clear (s_cfg st)) c), OUnit)
     | CSetConfig None => (st, OErr)
     | CGetConfig => (st, OConfig (s_cfg st))
     | CGetStats => (st, OStats (s_stats st))
